@@ -102,6 +102,8 @@ package utils
 // decoder must have seen that end before it reports a complete stream
 //@   at-return {C02,C12} [nil-only-after-the-stream-reported-its-end] when ret0 == nil :: ensures called("bufio.Reader.ReadByte") && result("bufio.Reader.ReadByte", 1) == io.EOF
 //@ func (*UnsignedChunkReader) Read
+// C20: the announced chunk size is unauthenticated input; whatever Read allocates itself is bounded by the caller's buffer
+//@   at-call? builtin.make {C20} [announced-size-does-not-size-an-allocation] requires $1 <= len(p)
 //@   at-call io.CopyN {C12} [payload-is-read-through-the-hashing-tee] requires called("io.TeeReader") && $1 == result("io.TeeReader", 0) && arg("io.TeeReader", 0) == iface(ucr.reader) && arg("io.TeeReader", 1) == ucr.hasher && $2 == chunkSize
 //@   at-return {C12} [end-of-stream-only-after-the-trailer-was-validated] when ret1 == io.EOF :: ensures called("utils.UnsignedChunkReader.readTrailer") && result("utils.UnsignedChunkReader.readTrailer", 0) == nil
 //
